@@ -72,6 +72,22 @@ Definition apply_msg (r : dmap) (m : msg) : dmap :=
   end.
 Definition apply_all (r : dmap) (ms : list msg) : dmap := fold_left apply_msg ms r.
 
+(* the replica of listener l along a trace: None while it is not joined; on
+   joining it starts from the empty map (what a client has before anything is
+   received), then every message it receives is applied in order *)
+Definition join_leave (l : lid) (o : op) (r : option dmap) : option dmap :=
+  match o with
+  | OAddL l' => if N.eqb l' l then Some [] else r
+  | ORemoveL l' => if N.eqb l' l then None else r
+  | _ => r
+  end.
+Fixpoint replica (l : lid) (r : option dmap) (tr : list (op * (bool * outs * dmap))) : option dmap :=
+  match tr with
+  | [] => r
+  | (o, (_, ms, _)) :: rest =>
+      replica l (option_map (fun x => apply_all x (msgs_for l ms)) (join_leave l o r)) rest
+  end.
+
 (* same map (as functions from keys) *)
 Definition dmap_sim (a b : dmap) : bool :=
   forallb (fun k => opt_json_eqb (dget a k) (dget b k)) (map fst a ++ map fst b).
